@@ -207,7 +207,13 @@ func doCheck(id, tier string) int {
 			rf := &ReplayFile{Property: id, Engine: a.run.spec.name, Label: a.run.label, Extra: a.run.extra, Race: a.run.spec.race, Seed: seed, Idx: f.Idx, Expect: f.V, Tape: f.Tape, Trace: f.Trace, Report: f.Report}
 			// obtain tape and trace when the worker could not deliver them (race, crash)
 			if len(rf.Tape) == 0 {
-				o := runOnce(a.cfg, f.Idx, "", 180*time.Second)
+				tc := *a.cfg
+				tc.trace = true
+				o := runOnce(&tc, f.Idx, "", 180*time.Second)
+				if o.crash != nil && o.crash.V.Kind == k.kind {
+					rf.Expect.Detail = o.crash.V.Detail
+					rf.Report = o.crash.Report
+				}
 				if o.res != nil {
 					rf.Tape, rf.Trace = o.res.Tape, o.res.Trace
 				}
@@ -219,7 +225,9 @@ func doCheck(id, tier string) int {
 			path := filepath.Join(verifDir, "replays", fmt.Sprintf("%s-%s-seed%d-run%d-%s.json", id, a.run.spec.name, seed, f.Idx, classTag(k)))
 			os.MkdirAll(filepath.Dir(path), 0o755)
 			writeJSON(path, rf)
-			if len(rf.Tape) > 0 && rf.Note == "" && minimised < 3 {
+			// a hang or stall costs tens of seconds per candidate: minimised only in the thorough tier
+			slowClass := k.kind == "hang" || k.kind == "stall"
+			if len(rf.Tape) > 0 && rf.Note == "" && minimised < 3 && (!slowClass || tier == "thorough") {
 				minimised++
 				budget := 20 * time.Second
 				if minimised == 1 {
@@ -249,7 +257,7 @@ func doCheck(id, tier string) int {
 				}
 			}
 			lines = append(lines, fmt.Sprintf("VIOLATION property=%s replay=%s", id, path))
-			lines = append(lines, fmt.Sprintf("  kind=%s site=%s runs_affected=%d :: %s", k.kind, k.site, len(fs), f.V.Detail))
+			lines = append(lines, fmt.Sprintf("  kind=%s site=%s runs_affected=%d :: %s", k.kind, k.site, len(fs), rf.Expect.Detail))
 			exit = 1
 		}
 	}
@@ -408,7 +416,7 @@ func doReplay(path string) int {
 	}
 	bw := buildWorkers(run.spec.race, !run.spec.race)
 	defer bw.cleanup()
-	cfg := &poolCfg{eng: run.spec, sites: bw.sites, seed: rf.Seed, tier: "quick", workers: 1, extra: run.extra}
+	cfg := &poolCfg{eng: run.spec, sites: bw.sites, seed: rf.Seed, tier: "quick", workers: 1, extra: run.extra, trace: true}
 	cfg.bin = bw.worker
 	if run.spec.race {
 		cfg.bin = bw.workerR
